@@ -62,6 +62,8 @@ def install_hooks():
             r = _REC["cur"]
             if r is not None and r.rig is not None and self is r.rig.machine.events and event in r.names:
                 r.log.append(["P", event, r.kw(kw)])
+                if event.endswith("_ball_missing") and event != "balldevice_ball_missing" and r.pending_lost > 0:
+                    r.pending_lost -= 1     # lost_idle_ball has booked one of the balls the idle device lost
             return orig(self, event, *a, **kw)
         setattr(EventManager, meth, wrapped)
     for meth in ("post", "post_boolean", "post_queue", "post_relay"):
@@ -244,19 +246,29 @@ class World:
         # environment handlers of the queue event balldevice_<d>_ball_eject_attempt (a diverter that has to move, a show
         # that has to finish): the k-th attempt of <d> is held for holds[d][k] ms
         self.holds = {d: list(case.get("holds", {}).get(d, [])) for d in self.devs}
+        self.fellback = {d: False for d in self.devs}   # the ball of d's current eject attempt has fallen back into d
         self.drain_dev = "outhole" if "outhole" in self.devs else "trough"
         self.cdelay = self.topo.get("cdelay", 80)       # ms from leaving the device to its confirm switch / event
         self.ready_checked = {}
+        self.ready_numbers = {}
+        self.pending_lost = 0   # balls an idle device has already taken off its count, not yet booked to the playfield
 
     # -- recording ----------------------------------------------------------------------------
     def write(self, kind, obj, attr, old, new):
         if self.rig is None or getattr(obj, "machine", None) is not self.rig.machine:
             return
         name = "bc" if kind == "bc" else obj.name
+        if kind == "dev" and attr == "count" and isinstance(old, int) and isinstance(new, int) and new < old and \
+                getattr(obj, "_state", None) == "idle":
+            self.pending_lost += old - new
         if kind == "dev" and attr == "state" and name in self.idle_since:
             self.idle_since[name] = self.now() if new == "idle" else None
             if new == "ejecting" and old == "waiting_for_target_ready":
                 self.ready_checked[name] = self.now_us()
+                tgt = self.devs[name]["target"]
+                if tgt in self.devs:     # MPF's own numbers at the moment wait_for_ready_to_receive returned
+                    bd = self.rig.machine.ball_devices[tgt]
+                    self.ready_numbers[name] = [bd.counted_balls, bd.incoming_balls_handler.get_num_incoming_balls()]
         self.log.append(["W", name, attr, old, new])
 
     def snap(self):
@@ -273,6 +285,7 @@ class World:
 
     def truth(self):
         return {"dev": {d: sum(1 for x in o if x) for d, o in self.occ.items()}, "loose": self.loose,
+                "pending_lost": self.pending_lost,
                 "transit": [list(x[:2]) for x in self.transit], "total": self.total}
 
     # -- boot ---------------------------------------------------------------------------------
@@ -326,6 +339,8 @@ class World:
 
         def handler(**kwargs):
             world.log.append(["H", name, world.snap(), world.truth()])
+            if name.endswith("_ball_eject_success"):
+                world.on_eject_success(name[len("balldevice_"):-len("_ball_eject_success")])
         return handler
 
     def _mk_game_handler(self, name):
@@ -426,14 +441,26 @@ class World:
     def oldest(self, d):
         return min((self.since[d][i], i) for i, x in enumerate(self.occ[d]) if x)[1]
 
+    def on_eject_success(self, d):
+        """MPF has confirmed d's eject.  If the ejected ball has in fact fallen back into d (the confirmation came from
+        another ball's activity), the recount after the eject finds one ball more and matches it with the next expected
+        ball of d: that ball's entry is consumed although it is physically still on its way."""
+        if d in self.fellback and self.fellback[d]:
+            self.fellback[d] = False
+            for y in self.transit:
+                if y[1] == d and y[0] not in ("playfield", d) and not y[4]:
+                    y[4] = "fb"
+                    break
+
     def on_pulse(self, d):
+        self.fellback[d] = False
         v = self.devs[d]
         tgt = v["target"]
         room = None
         info = {"target": tgt, "has_ball": self.count(d) > 0, "t": self.now_us(),
                 "state": self.rig.machine.ball_devices[d].state,
                 "transit": [list(x[:2]) for x in self.transit],
-                "dev": {e: self.count(e) for e in self.devs}}
+                "dev": {e: self.count(e) for e in self.devs}, "pending_lost": self.pending_lost}
         if tgt != "playfield":
             inbound = [x for x in self.transit if x[1] == tgt and x[0] != "playfield"]
             kicked = [x for x in self.kicked if x[1] == tgt]
@@ -459,10 +486,15 @@ class World:
                     x[3] = True
             if own:
                 info["own_given_up"] = all(x[3] or x[4] for x in own)     # given up, or taken for arrived
+                # how many of the own balls on their way MPF no longer expects (a target with several places may have a
+                # properly registered ball of this source on its way as well)
+                info["own_given_up_n"] = sum(1 for x in own if x[3] or x[4])
             # balls of OTHER sources which MPF has given up on (their entry is off the target's list) but which are
             # physically still on their way
             info["others_given_up"] = len([x for x in inbound if x[0] not in (d, tgt) and (x[3] or x[4])])
+            info["at_check"] = self.ready_numbers.get(d)
             info["superseded_pf"] = any(x[4] == "pf" for x in inbound)
+            info["superseded_fb"] = len([x for x in inbound if x[4] == "fb"])
         info["room"] = room
         self.log.append(["C", d, self.snap(), info])
         if self.count(d) == 0:
@@ -536,6 +568,8 @@ class World:
                 self.entrance_hit(dst)
             return
         self.log.append(["S", "arrive", src, dst, self.now_us()])
+        if src == dst:
+            self.fellback[dst] = True
         if src != dst:
             self.delivered[dst] = self.delivered.get(dst, 0) + 1
         self.seat_on(dst, free[0])
@@ -1284,7 +1318,12 @@ def oracle_c04(case, out):
                 ghost = 0 if tdev is None else sum(
                     max(0, snap[d][4] - sum(1 for x in flights if x[1] == d)) for d in devs)
                 # every cause accounts for one ball that is physically on the playfield before MPF has booked it
-                allow = max(phantom, ghost) + max(0, snap["playfield"][2]) + max(0, unknown) + (1 if behind else 0)
+                behind_n = 0 if tdev is None else sum(
+                    max(0, snap[d][0] - (1 if snap[d][3] in ("ball_left", "failed_confirm") else 0) - tdev[d])
+                    for d in devs)
+                # (between _set_ball_count and the lost_idle_ball bookings the device count is right already)
+                allow = max(phantom, ghost) + max(0, snap["playfield"][2]) + max(0, unknown) + behind_n + \
+                    it[3].get("pending_lost", 0)
                 if allow > 0 and snap["playfield"][0] >= -allow:
                     # a capture from the playfield is booked before the eject confirmation (or the new-ball
                     # detection) that the very same capture triggers
@@ -1319,17 +1358,31 @@ def oracle_c04(case, out):
                 add("pulse-after-playfield-ball-taken-for-expected-ball",
                     "coil of %s pulsed towards %s while an earlier ball is still on its way there: a ball that rolled in "
                     "from the playfield was matched with it, so MPF counts it as arrived" % (it[1], info["target"]))
+            elif info["room"] is not None and info["room"] <= 0 and info.get("superseded_fb") and \
+                    info["room"] + info["superseded_fb"] > 0 and \
+                    devs[info["target"]]["cap"] - snap[info["target"]][0] - snap[info["target"]][4] > 0:
+                # the target's own ejected ball fell back into it although its eject was confirmed (by another ball's
+                # activity); after the eject it was counted as a new arrival and matched with an expected ball that is
+                # physically still on its way
+                add("pulse-while-confirmed-ball-falls-back",
+                    "coil of %s pulsed towards %s: the ball %s ejected has fallen back into it although its eject was "
+                    "confirmed by another ball's activity, and was taken for an expected ball that is still on its way, "
+                    "so MPF counts one place too many" % (it[1], info["target"], info["target"]))
             elif info["room"] is not None and info["room"] <= 0:
                 t = info["target"]
                 # (a source that pulses in ball_left -- entrance counter -- has already registered its own ball)
                 own_reg = 1 if info["state"] == "ball_left" else 0
                 believed = devs[t]["cap"] - snap[t][0] - (snap[t][4] - own_reg)
+                if info.get("at_check"):
+                    # what MPF saw when the source passed wait_for_ready_to_receive (the coil fires a few ms later: count
+                    # settle, PSU arbitration; another source may have registered its ball meanwhile)
+                    believed = devs[t]["cap"] - info["at_check"][0] - info["at_check"][1]
                 own = any(x[:2] == [it[1], t] for x in info.get("transit", []))
-                gave_up = bool(info.get("own_given_up"))
-                n_own = sum(1 for x in info.get("transit", []) if x[:2] == [it[1], t]) if gave_up else 0
+                n_own = info.get("own_given_up_n", 0)      # own balls in transit that MPF has given up on
+                gave_up = n_own > 0
                 oth = info.get("others_given_up", 0)
                 unreg = info.get("unregistered_other", 0)
-                if believed > 0 and own and info["room_without_own"] > 0 and gave_up:
+                if believed > 0 and own and gave_up and info["room"] + n_own > 0:
                     # MPF has given up on an earlier ball of this very eject (took a foreign ball that sat in the source
                     # during failed_confirm for the returned one, or booked it as lost after ball_missing_timeout)
                     # which is physically still on its way
